@@ -25,13 +25,14 @@ for pid in sorted(props):
 out.append('')
 out.append('Seeded property-breaking changes (each written by a sub-agent from the property text alone, confirmed by `tools/validate_mutant.py`):')
 out.append('')
-out.append('| change | property | confirmed (demo flips, 291 tests still pass) | reported by `./check <id>` | first violated obligation |')
-out.append('|---|---|---|---|---|')
-for d in sorted(glob.glob(V + '/seeded/C*-m[12]')):
+out.append('| change | property | round | confirmed (demo flips, 291 tests still pass) | reported by `./check <id>` (quick) | first violated obligation |')
+out.append('|---|---|---|---|---|---|')
+for d in sorted(glob.glob(V + '/seeded/C*-m[0-9]')):
     m = json.load(open(d + '/meta.json'))
     vl = m['ran'].get('check_with_patch', {}).get('violation_lines', [])
     ob = re.sub(r'.*obligation=', '', vl[0])[:110] if vl else ''
-    out.append('| %s | %s | %s | %s | `%s` |' % (os.path.basename(d), m['property'], 'yes' if m.get('confirmed') else 'NO', 'yes' if m.get('detected_by_check') else '**no**', ob))
+    k = int(os.path.basename(d).split('-m')[1]); rnd = 1 + (k - 1) // 2 if k <= 2 else 2 + (k - 1) // 2
+    out.append('| %s | %s | %s | %s | %s | `%s` |' % (os.path.basename(d), m['property'], {1: '1-2', 3: '3', 4: '4'}.get(rnd, rnd), 'yes' if m.get('confirmed') else 'NO', 'yes' if m.get('detected_by_check') else '**no**', ob))
 txt = '\n'.join(out)
 p = V + '/DESIGN.md'; s = open(p).read()
 a, b = '<!-- STATUS-TABLES:BEGIN -->', '<!-- STATUS-TABLES:END -->'
